@@ -5,6 +5,7 @@ CONSTANTS
   Layouts = {1}
   PreIds = {0}
   Pairs = FALSE
+  Hists = {"added"}
   Commands = {"lint"}
 INVARIANTS EmitCase
 CHECK_DEADLOCK FALSE
